@@ -313,7 +313,13 @@ class Sym:
     def __le__(self, o): return self._cmp(o, 'le')
     def __gt__(self, o): return self._cmp(o, 'gt')
     def __ge__(self, o): return self._cmp(o, 'ge')
-    __hash__ = None
+
+    def __hash__(self):
+        # floats are hashable, so package code may use coordinates as dictionary keys: a numeric Sym hashes like its number,
+        # a symbolic one by its term (two structurally identical terms compare equal via same())
+        if self.is_numeric():
+            return hash(self.n)
+        return hash(('sym', self.n if _is_num(self.n) else self.n.get_id(), tuple(sorted(self.d.items()))))
 
     def __bool__(self):
         r = self._cmp(0, 'ne')
